@@ -51,9 +51,13 @@ def run(ctx):
                        'ARMv6-M assembly bodies are not analysable in this image (only their C++ side is checked)']
     cfgs = ctx.configs()
     progs = ctx.programs(cfgs)
-    pairs = [('x64-asm', 'x64-port')]
-    if ctx.tier == 'thorough':
-        pairs += [('m0-asm', 'm0-port'), ('a64-asm', 'x64-port')]
+    pairs = [('x64-asm', 'x64-port'), ('m0-asm', 'm0-port'), ('a64-asm', 'x64-port')]
+    pairs = [p for p in pairs if p[0] in cfgs and p[1] in cfgs]
+    from .. import asmsem
+    for c in cfgs:
+        wa = asmsem.rule_wordalg(ctx, c, os.path.join(ctx.outdir, 'asm'))
+        if c == 'x64-asm':
+            ctx.floor('R-WORDALG routine x aliasing instances[%s]' % c, wa, 25)
     total_specs = 0
     for (ca, cp) in pairs:
         pa, pp = progs[ca], progs[cp]
